@@ -144,9 +144,9 @@ func c12Rune(r rune) string {
 var byteType = types.Universe.Lookup("byte").Type()
 
 func c12Byte(b byte) string {
-	o := jh.Raw(jen.Var().Id("x").Op("=").LitByte(b))
+	o := jh.CatchOutcome(func() jh.Outcome { return jh.Raw(jen.Var().Id("x").Op("=").LitByte(b)) })
 	if !o.OK() {
-		return "render failed: " + o.String()
+		return "build or render failed: " + o.String()
 	}
 	const pre = "var x = "
 	if len(o.Out) < len(pre) || o.Out[:len(pre)] != pre {
